@@ -116,11 +116,12 @@ FindRigidTransformationBySVD<PointType>::estimate_(
   Eigen::Matrix<Scalar, -1, -1> u = svd.matrixU();
   Eigen::Matrix<Scalar, -1, -1> v = svd.matrixV();
 
-  //      if (u.determinant () * v.determinant () < 0)
-  //      {
-  //        for (int x = 0; x < d; ++x)
-  //          v (x, d) *= -1;
-  //      }
+  // The least squares rotation must be proper: when the SVD yields a reflection
+  // (coplanar or collinear 3D sets, whose last singular value is zero), flip the
+  // singular vector of the smallest singular value
+  if (u.determinant() * v.determinant() < 0) {
+    v.col(CARTESIAN_DIM - 1) *= -1;
+  }
 
   // Compute translation
   TransformationMatrixType H = TransformationMatrixType::Identity();
@@ -160,11 +161,12 @@ FindRigidTransformationBySVD<PointType>::estimate_(
   Eigen::Matrix<Scalar, -1, -1> u = svd.matrixU();
   Eigen::Matrix<Scalar, -1, -1> v = svd.matrixV();
 
-  //      if (u.determinant () * v.determinant () < 0)
-  //      {
-  //        for (int x = 0; x < d; ++x)
-  //          v (x, d) *= -1;
-  //      }
+  // The least squares rotation must be proper: when the SVD yields a reflection
+  // (coplanar or collinear 3D sets, whose last singular value is zero), flip the
+  // singular vector of the smallest singular value
+  if (u.determinant() * v.determinant() < 0) {
+    v.col(CARTESIAN_DIM - 1) *= -1;
+  }
 
   // Compute translation
   TransformationMatrixType H = TransformationMatrixType::Identity();
